@@ -118,7 +118,7 @@ func (res *Result) GetLiteralResult() (string, error) {
 	return res.value.Literal("GetLiteralResult"), nil
 }
 
-func (res *Result) GetNodeSetResult() ([]xutils.XpathNode, error) {
+func (res *Result) GetNodeSetResult() (ns []xutils.XpathNode, err error) {
 	if res.runErr != nil {
 		return []xutils.XpathNode{}, res.runErr
 	}
@@ -127,6 +127,13 @@ func (res *Result) GetNodeSetResult() ([]xutils.XpathNode, error) {
 		return nil, fmt.Errorf("No result to return for nodeset.")
 	}
 
+	// A result that is not a nodeset cannot be converted to one; outside
+	// Run() nothing else turns that panic into an error.
+	defer func() {
+		if r := recover(); r != nil {
+			ns, err = nil, fmt.Errorf("%v", r)
+		}
+	}()
 	return res.value.Nodeset("GetNodesetResult"), nil
 }
 
